@@ -1,12 +1,12 @@
 ID = "C09"
 COQ_PROPS = "Properties/C09.v"
 JUDGE = "Judge.C09"
-DRIVER = "tdc"
+DRIVER = "c09"
 SHARD = 60
 
 
 def driver_args(tier, seed, phase):
-    a = ["-prop", "C09"]
+    a = []
     if phase == "search":
         a += ["-n", "1500" if tier == "quick" else "20000"]
     return a
@@ -23,11 +23,13 @@ TRUSTED_BASE = [
     "qid_tries regenerated from the source into Gen/Constants.v",
     "harness/tdcx (fake NetConn, script executor, generator), verif hooks in /repo (pkg/verifhook, zz_verif_export.go)",
 ]
-RULE = ("catalogue (limit 1, limit 2 with withdraw, release by cancel/error, closed connection refuses, reservation outliving a close) + seeded random "
+RULE = ("(established connection) catalogue (limit 1, limit 2 with withdraw, release by cancel/error, closed connection refuses, reservation outliving a close) + seeded random "
         "schedules with more calls than the limit (limits 1,2,3,4,8); non-trivial = some reservation was refused or at least limit-many reservations "
         "were attempted; distinct = distinct Gallina literal")
 LEVEL_TEXT = ("Theorems for ALL label lists: the reserved counter and the waiter-table size are exact counts of calls in those phases, their sum never "
               "exceeds the limit, nothing leaks when all calls have ended (state equals a fresh connection), a live connection below its limit admits, "
-              "a connection at its limit refuses without counting. Replayed against the real connection incl. its internal counters on every run.")
-LEVEL_NOTE = ("Covers the established connection (TraditionalDnsConn). The dialing phase (lazyDnsConn queue limit, early reservations) and the "
-              "transport-level choice of connections are exercised by the C08/C09 pool drivers when built (DESIGN.md). No axioms.")
+              "a connection at its limit refuses without counting; the same for the dialing phase (queue limit, wait group) incl. that callers queued while dialing are served first and not refused with equal limits. Replayed against the real connection incl. its internal counters on every run.")
+LEVEL_NOTE = ("Covers the established connection (TraditionalDnsConn, Model.Tdc) and the dialing phase (lazyDnsConn, Model.Lazy: queue limit, exact "
+              "early-reservation accounting, early callers served first with equal limits). The real connection behind the lazy wrapper is abstracted "
+              "to its capacity counter. Which connection the transport picks and the limit 1 of the non-pipelined transport are observed by the C08 "
+              "pool driver, not modelled here. No axioms.")
